@@ -250,7 +250,10 @@ def run(ck: Checker):
             fn = have.get(name)
             if fn is not None and not [n for n in walk_no_nested(fn) if isinstance(n, ast.For)]:
                 body = body_without_doc(fn)
-                ok = len(body) == 1 and isinstance(body[0], ast.Return) and norm(body[0].value) == 'all((self.is_constant_at(i) for i in range(self.output_size)))'
+                ok = len(body) == 1 and isinstance(body[0], ast.Return) and isinstance(body[0].value, ast.Call) and norm(body[0].value.func) == 'all' and len(body[0].value.args) == 1 \
+                    and isinstance(body[0].value.args[0], (ast.GeneratorExp, ast.ListComp)) and len(body[0].value.args[0].generators) == 1 \
+                    and norm(body[0].value.args[0].generators[0].iter) == 'range(self.output_size)' and not body[0].value.args[0].generators[0].ifs \
+                    and norm(body[0].value.args[0].elt) == f'self.is_constant_at({norm(body[0].value.args[0].generators[0].target)})'
                 ck.check(ok, 'C12.DELEG', m, fn, f'{cname}.{name} = all(is_constant_at(i) for every output)', f'body `{norm(body[0])[:160] if body else None}`', construct=f'{cname}.{name}')
     ck.floor('C12.CARRY', 4)
     ck.floor('C12.DELEG', 2)
@@ -289,3 +292,171 @@ def _ancestors(m, node, stop):
     while cur in m.parents and cur is not stop:
         cur = m.parents[cur]
         yield cur
+
+
+# ---------------------------------------------------------------------------
+# C12.FOLD: every protocol predicate of every representation folded over all small functions
+
+
+def _reference(T, n, m):
+    """Mathematical definitions over truth table T (m rows of 2**n bools)."""
+    N = 1 << n
+    ref = {}
+    bit = lambda t, i: bool((t >> (n - 1 - i)) & 1)  # noqa: E731
+    ref['truth_table'] = [list(r) for r in T]
+    ref['is_constant'] = all(len(set(r)) == 1 for r in T)
+    for j in range(m):
+        r = T[j]
+        ref[('is_constant_at', j)] = len(set(r)) == 1
+        for inv in (False, True):
+            seq = [(not v) if inv else v for v in r]
+            ref[('is_monotone_at', j, inv)] = all(a <= b for a, b in zip(seq, seq[1:]))
+        ref[('is_symmetric_at', j)] = all(len({r[t] for t in range(N) if bin(t).count('1') == k}) <= 1 for k in range(n + 1))
+        for i in range(n):
+            ref[('dep', j, i)] = any(r[t] != r[t ^ (1 << (n - 1 - i))] for t in range(N))
+            ref[('eq_in', j, i)] = all(r[t] == bit(t, i) for t in range(N))
+            ref[('eq_nin', j, i)] = all(r[t] == (not bit(t, i)) for t in range(N))
+        ref[('significant', j)] = [i for i in range(n) if ref[('dep', j, i)]]
+    for inv in (False, True):
+        ref[('is_monotone', inv)] = all(ref[('is_monotone_at', j, inv)] for j in range(m))
+    ref['is_symmetric'] = all(ref[('is_symmetric_at', j)] for j in range(m))
+    return ref
+
+
+def _sym_under(T, n, outs, neg):
+    N = 1 << n
+    def idx(t):
+        x = 0
+        for i in range(n):
+            b = bool((t >> (n - 1 - i)) & 1) ^ neg[i]
+            x = (x << 1) | int(b)
+        return x
+    for k in range(n + 1):
+        vals = {tuple(T[j][idx(t)] for j in outs) for t in range(N) if bin(t).count('1') == k}
+        if len(vals) > 1:
+            return False
+    return True
+
+
+def fold_predicates(ck: Checker, rule='C12.FOLD'):
+    import random
+    repo = ck.repo
+    from ..interp import Host, Instance, RepoClass
+
+    def fixed_sum(input_size, number_of_true, *, negations=None):
+        neg = [False] * input_size if negations is None else list(negations)
+        for idxs in itertools.combinations(range(input_size), number_of_true):
+            v = [False ^ neg[i] for i in range(input_size)]
+            for i in idxs:
+                v[i] = True ^ neg[i]
+            yield v
+
+    ov = {'cirbo.core.circuit.utils.input_iterator_with_fixed_sum': fixed_sum}
+    it = Interp(repo, overrides=ov, max_steps=3_000_000)
+    tm, pm, cm = repo.mod(TT), repo.mod(PF), repo.mod(CIRCUIT)
+    TTc = RepoClass(tm, tm.cls('TruthTable'))
+    PFc = RepoClass(pm, pm.cls('PyFunction'))
+    CCc = RepoClass(cm, cm.cls('Circuit'))
+
+    def make(kind, T, n, m):
+        def f(xs):
+            t = 0
+            for v in xs:
+                t = (t << 1) | int(bool(v))
+            return [T[j][t] for j in range(m)]
+        if kind == 'TruthTable':
+            return it.instantiate(TTc, ([list(r) for r in T],)), tm
+        if kind == 'PyFunction':
+            return it.instantiate(PFc, (f,), {'input_size': n}), pm
+        inst = Instance(CCc)
+        inst._inputs = [f'i{k}' for k in range(n)]
+        inst._outputs = [f'o{k}' for k in range(m)]
+        inst.evaluate = lambda inputs: list(f(inputs))
+        inst.evaluate_at = lambda inputs, output_index: f(inputs)[output_index]
+        return inst, cm
+
+    shapes = [(1, 1), (2, 1), (1, 2)]
+    sampled = [(2, 2, 24), (3, 1, 24)] if ck.tier == 'quick' else [(2, 2, 256), (3, 1, 256)]
+    rnd = random.Random(12)
+    funcs = []
+    for n, m in shapes:
+        rows = list(itertools.product((False, True), repeat=1 << n))
+        funcs += [(n, m, [list(r) for r in combo]) for combo in itertools.product(rows, repeat=m)]
+    for n, m, k in sampled:
+        rows = list(itertools.product((False, True), repeat=1 << n))
+        allf = list(itertools.product(rows, repeat=m))
+        pick = allf if k >= len(allf) else rnd.sample(allf, k)
+        # always include the order-sensitive classics
+        funcs += [(n, m, [list(r) for r in combo]) for combo in pick]
+    funcs.append((2, 1, [[False, True, False, True]]))
+    funcs.append((2, 2, [[False, False, True, True], [True, True, False, False]]))
+    n_q = 0
+    for kind in ('TruthTable', 'PyFunction', 'Circuit'):
+        probs = []
+        for n, m, T in funcs:
+            ref = _reference(T, n, m)
+            try:
+                inst, mod = make(kind, T, n, m)
+            except InterpRaise as e:
+                probs.append(f'{_tts(T)}: construction raises {e.exc_name}')
+                continue
+
+            def q(name, *a, **k):
+                nonlocal n_q
+                n_q += 1
+                it.steps = 0
+                try:
+                    return it.getattr(mod, None, inst, name)(*a, **k)
+                except InterpRaise as e:
+                    return f'raise:{e.exc_name}'
+
+            checks = [('get_truth_table()', [list(r) for r in q('get_truth_table')] if not isinstance(q('get_truth_table'), str) else q('get_truth_table'), ref['truth_table']),
+                      ('is_constant()', q('is_constant'), ref['is_constant']), ('is_symmetric()', q('is_symmetric'), ref['is_symmetric'])]
+            for inv in (False, True):
+                checks.append((f'is_monotone(inverse={inv})', q('is_monotone', inverse=inv) if inv else q('is_monotone'), ref[('is_monotone', inv)]))
+            for j in range(m):
+                checks.append((f'is_constant_at({j})', q('is_constant_at', j), ref[('is_constant_at', j)]))
+                checks.append((f'is_symmetric_at({j})', q('is_symmetric_at', j), ref[('is_symmetric_at', j)]))
+                checks.append((f'get_significant_inputs_of({j})', q('get_significant_inputs_of', j), ref[('significant', j)]))
+                for inv in (False, True):
+                    checks.append((f'is_monotone_at({j}, inverse={inv})', q('is_monotone_at', j, inverse=inv), ref[('is_monotone_at', j, inv)]))
+                for i in range(n):
+                    checks.append((f'is_dependent_on_input_at({j}, {i})', q('is_dependent_on_input_at', j, i), ref[('dep', j, i)]))
+                    checks.append((f'is_output_equal_to_input({j}, {i})', q('is_output_equal_to_input', j, i), ref[('eq_in', j, i)]))
+                    checks.append((f'is_output_equal_to_input_negation({j}, {i})', q('is_output_equal_to_input_negation', j, i), ref[('eq_nin', j, i)]))
+            for xs in itertools.product((False, True), repeat=n):
+                t = int(''.join(str(int(v)) for v in xs), 2)
+                checks.append((f'evaluate({list(xs)})', list(q('evaluate', list(xs))) if not isinstance(q('evaluate', list(xs)), str) else 'raise', [T[j][t] for j in range(m)]))
+                checks.append((f'evaluate_at({list(xs)}, {m - 1})', q('evaluate_at', list(xs), m - 1), T[m - 1][t]))
+            outs = list(range(m))
+            neg = q('find_negations_to_make_symmetric', outs)
+            exists = any(_sym_under(T, n, outs, list(ng)) for ng in itertools.product((False, True), repeat=n))
+            if isinstance(neg, str):
+                checks.append(('find_negations_to_make_symmetric', neg, 'a result'))
+            elif neg is None:
+                checks.append(('find_negations_to_make_symmetric is None', False, exists))
+            else:
+                checks.append(('find_negations_to_make_symmetric makes it symmetric', _sym_under(T, n, outs, list(neg)), True))
+            for what, got, want in checks:
+                if got is not want and got != want:
+                    probs.append(f'{_tts(T)}: {what} = {got!r}, definition gives {want!r}')
+            if len(probs) > 5:
+                break
+        cls_mod = {'TruthTable': tm, 'PyFunction': pm, 'Circuit': cm}[kind]
+        ck.check(not probs, rule, cls_mod, cls_mod.cls(kind), f'{kind}: every protocol query equals its definition on {len(funcs)} small functions (all with <= 2 table rows of width 2, plus samples/all of 2x2 and 3x1)',
+                 '; '.join(probs[:3]), construct=f'{kind} protocol queries vs definitions')
+    ck.notes['protocol_queries_folded'] = n_q
+    ck.assume('input_iterator_with_fixed_sum enumerates every assignment with the given number of True inputs (its generator body is replaced by an oracle while folding the symmetric-check loops)')
+
+
+def _tts(T):
+    return '/'.join(''.join(str(int(v)) for v in r) for r in T)
+
+
+_run_without_fold = run
+
+
+def run(ck: Checker):  # noqa: F811
+    _run_without_fold(ck)
+    ck.rule('C12.FOLD', 'every query of the function protocol, in all three representations, folded over all small Boolean functions and compared with its mathematical definition (and thereby with the sibling representations)')
+    fold_predicates(ck)
